@@ -20,6 +20,8 @@ def contextEndKillsGroup : Bool := false
 def stopKillsGroupFirst : Bool := false
 def killGroupIsSigkillToMinusPid : Bool := false
 def stopDelayMs : Nat := 0
+def executeHoldsMutexAcrossRun : Bool := true
+def stopTakesTheSameMutex : Bool := true
 end GoUtils.Generated.Subproc
 `
 
@@ -55,6 +57,22 @@ func extractSubproc(root string) (string, map[string]any, error) {
 		facts["killProcessGroup"] = ks
 		kg = ks == `{ if pid > 0 { _ = syscall.Kill(-pid, syscall.SIGKILL) } }`
 	}
+	// locking: Execute holds the object's mutex from before cmd.Run() until it returns; stop() needs it
+	execHolds, stopTakes := false, false
+	if ex := p.method("Subprocess", "Execute"); ex != nil {
+		iLock := stmtIndex(p, ex.Body, regexp.MustCompile(`^s\.mu\.Lock\(\)$`))
+		iDefer := stmtIndex(p, ex.Body, regexp.MustCompile(`^defer s\.mu\.Unlock\(\)$`))
+		iRun := stmtIndex(p, ex.Body, regexp.MustCompile(`^err = cmd\.Run\(\)$`))
+		execHolds = iLock >= 0 && iDefer == iLock+1 && iRun > iDefer
+		facts["Execute"] = map[string]int{"lock": iLock, "deferUnlock": iDefer, "run": iRun}
+	}
+	if st := p.method("Subprocess", "stop"); st != nil {
+		iCheck := stmtIndex(p, st.Body, regexp.MustCompile(`^err = s\.Check\(\)$`))
+		iLock := stmtIndex(p, st.Body, regexp.MustCompile(`^s\.mu\.Lock\(\)$`))
+		iStop := stmtIndex(p, st.Body, regexp.MustCompile(`^err = s\.getCmd\(\)\.Stop\(\)$`))
+		stopTakes = iLock >= 0 && iStop > iLock && iCheck >= 0 && iCheck < iLock
+		facts["stop"] = map[string]int{"check": iCheck, "lock": iLock, "cmdStop": iStop}
+	}
 	var b strings.Builder
 	b.WriteString("namespace GoUtils.Generated.Subproc\ndef ok : Bool := true\n")
 	fmt.Fprintf(&b, "/-- the subprocess is started as the leader of its own process group (%s) -/\ndef ownProcessGroup : Bool := %s\n", p.pos(setGroup), leanBool(ownGroup))
@@ -62,6 +80,8 @@ func extractSubproc(root string) (string, map[string]any, error) {
 	fmt.Fprintf(&b, "/-- the kill scheduled by Stop signals the group before looking the process up (%s) -/\ndef stopKillsGroupFirst : Bool := %s\n", p.pos(stop), leanBool(stopFirst))
 	fmt.Fprintf(&b, "/-- killProcessGroup(pid) = kill(-pid, SIGKILL) -/\ndef killGroupIsSigkillToMinusPid : Bool := %s\n", leanBool(kg))
 	fmt.Fprintf(&b, "def stopDelayMs : Nat := %s\n", m[1])
+	fmt.Fprintf(&b, "/-- Execute takes the object's mutex, defers its release and only then runs the command -/\ndef executeHoldsMutexAcrossRun : Bool := %s\n", leanBool(execHolds))
+	fmt.Fprintf(&b, "/-- stop() needs the same mutex (Check's read lock, then Lock) before it reaches cmd.Stop() -/\ndef stopTakesTheSameMutex : Bool := %s\n", leanBool(stopTakes))
 	b.WriteString("end GoUtils.Generated.Subproc\n")
 	return b.String(), facts, nil
 }
